@@ -364,3 +364,25 @@ Theorem c01_capture_then_output_is_body : forall g ld fuel x body c b,
   = text (bf (block g (render g ld (S fuel)) body c b)).
 Proof. exact capture_then_output_is_body. Qed.
 Print Assumptions c01_capture_then_output_is_body.
+
+(** `{% assign x = e %}{{ x }}`: when [e] evaluates to [v] (not a live forloop
+    object) and no block scope shadows [x], the pair writes what `{{ e }}` writes
+    and leaves [x] bound to [v] as a local, the rest of the context untouched. *)
+Theorem c01_assign_then_output : forall g ld fuel x e v c b,
+  eval (S fuel) c e = EOk v ->
+  has_forloop v = false ->
+  chain_lookup x (scopes c) = None ->
+  let c' := set_locals c (dict_set x v (locals c)) in
+  nodes (render g ld (S (S fuel))) [NAssign x e; NOutput (EPath x [])] c b
+  = mk (st (write_value (EOk v) c b)) c' (bf (write_value (EOk v) c b)).
+Proof. exact assign_then_output. Qed.
+Print Assumptions c01_assign_then_output.
+
+Theorem c01_assign_then_output_is_output : forall g ld fuel x e v c b,
+  eval (S fuel) c e = EOk v ->
+  has_forloop v = false ->
+  chain_lookup x (scopes c) = None ->
+  bf (nodes (render g ld (S (S fuel))) [NAssign x e; NOutput (EPath x [])] c b)
+  = bf (render g ld (S (S fuel)) (NOutput e) c b).
+Proof. exact assign_then_output_text. Qed.
+Print Assumptions c01_assign_then_output_is_output.
